@@ -86,7 +86,7 @@ def run_case(case, obs) -> None:  # noqa: C901
             cn = m.constraint
             minv = np.linalg.inv(m.metric_dense)
             jq = cn.jac(q)
-            hess = cn.hess()
+            hess = cn.hess(q)
             v = minv @ p
             dg = np.block([[jq, np.zeros_like(jq)], [np.einsum("ijk,j->ik", hess, v), jq @ minv]])
             tbasis = sla.null_space(dg)
